@@ -32,7 +32,7 @@ for pid in props:
                       "BOUNDED check of contracts on the real functions (Kani/CBMC with a stated bound on input length; a bounded "
                       "stand-in, NOT counted as proved; text extracted mechanically from /repo on every run): ")
                      + c["decided"] + ".  NOT decided by this check: " + c["undecided"] + "."),
-            "design_ref": "DESIGN.md section 4, " + pid,
+            "design_ref": "DESIGN.md section 9.1 (as built) and section 4, " + pid + " (plan)",
         },
         "level_note": c.get("note", "Trusted: Verus/Z3 (and Kani/CBMC where used), the extraction rewrites R1-R7 counted in the evidence, "
                             "assumed contracts of callees outside the unit (listed per run under coverage.trusted_base; /repo "
